@@ -467,6 +467,8 @@ def build_synth(p):
             return torch.randint(-2, 3, shape, generator=g).to(dt)
         return torch.randn(*shape, generator=g, dtype=torch.float64).to(dt)
 
+    shared_v = [None]      # fixed_vector models store ONE direction tensor object in every split node
+
     def build(s, root):
         if s == 0:
             ident = ids[counter[0]]
@@ -479,7 +481,12 @@ def build_synth(p):
             b = float(torch.randint(-1, 2, (1,), generator=g))
             scale = float(2.0 ** int(torch.randint(-1, 2, (1,), generator=g)))
         else:
-            v = rnd(d) * p.get('vnorm', 1.0)
+            if p.get('shared_dir'):
+                if shared_v[0] is None:
+                    shared_v[0] = rnd(d) * p.get('vnorm', 1.0)
+                v = shared_v[0]
+            else:
+                v = rnd(d) * p.get('vnorm', 1.0)
             x0 = rnd(d) * p.get('spread', 1.0) * 0.7
             b = float((v * x0).sum())
             scale = float(math.exp(float(torch.rand(1, generator=g)) * math.log(25.0) + math.log(0.2))) * p.get('scale_mult', 1.0)
@@ -820,6 +827,10 @@ def gen_cases(run):
         cases.append(synth_case(r, 'tiny-gate-temperature', shape, T=r.choice([1e-4, 3e-4, 1e-3, 3e-3]), scale_mult=r.choice([0.01, 0.05, 0.3]),
                                 near_root=True, default_scale=False, dtype='f64', keep=r.choice([0.5, 0.9, 0.99, 1.0]), n_rows=40,
                                 api=r.choice(['tree', 'predict'])))
+    # (4c) every split node holds the same direction tensor object (what split_method='fixed_vector' produces), thresholds differ
+    for i in range(16 if quick else 160):
+        shape = random_shape(r, r.randint(2, 4), r.choice(styles))
+        cases.append(synth_case(r, 'shared-direction', shape, shared_dir=True))
     # (5) dispatch
     for i in range(16 if quick else 120):
         shape = random_shape(r, r.randint(0, 4), r.choice(styles))
